@@ -141,6 +141,13 @@ Theorem canonical_schedule_finishes : forall c : cfg, is_done (run c (canon c)) 
 Proof. exact canon_done. Qed.
 Print Assumptions canonical_schedule_finishes.
 
+(* Two bridges alive at once are judged component-wise: the pair monitor accepts iff the
+   single-bridge monitor (monitor_sound) accepts each bridge's own observation. *)
+Theorem pair_monitor_componentwise :
+  forall a b : case, ok_p (Two a b) = true <-> ok a = true /\ ok b = true.
+Proof. intros a b. cbn. apply andb_true_iff. Qed.
+Print Assumptions pair_monitor_componentwise.
+
 (* ---- non-vacuity -------------------------------------------------------------- *)
 
 Definition ex_async := mkCfg FAsync false [7; 0; 7] None 1.            (* duplicates, a "falsy" id *)
@@ -201,5 +208,10 @@ Example monitor_examples :
   ok (CaseL ex_fail false 40 0 [7; 0] (Some (Raised 1)) true 0 1 1 []) = true /\
   agree (CaseL ex_fail false 40 0 [7; 0] (Some (Raised 1)) true 0 1 1 [(0, 0); (0, 0); (0, 0)]) = true /\
   ok (CaseL ex_async false 40 0 [7] (Some Stop) true 0 1 1 []) = false /\
-  ok (CaseL ex_async false 40 1 [7] None false 0 1 1 []) = false.
+  ok (CaseL ex_async false 40 1 [7] None false 0 1 1 []) = false /\
+  (* two bridges at once: the second one never got its elements (shared deadlock code) *)
+  ok_p (Two (CaseL ex_fail false 30 1 [7; 0] (Some (Raised 1)) true 0 1 1 [])
+            (CaseL ex_fail false 30 1 [] None false 0 1 0 [])) = false /\
+  ok_p (Two (CaseL ex_fail false 30 0 [7; 0] (Some (Raised 1)) true 0 1 1 [])
+            (CaseL ex_fail false 30 0 [7; 0] (Some (Raised 1)) true 0 1 1 [])) = true.
 Proof. vm_compute. repeat split. Qed.
